@@ -78,8 +78,14 @@ def answer (all : Bool) (src dst : Nat) (ups cores downs : List Seg) : String :=
   let ps := combineSpec ups cores downs src dst all
   let lines := (ps.map (if all then renderFull else renderUniq)).mergeSort strLe
   let errs := pathErrors joins
+  -- cross-check: the graph model must return the same paths as the specification enumeration
+  let dmgNote := match combineDMG ups cores downs src dst all with
+    | none => " dmg-panic"
+    | some qs =>
+      if (qs.map renderFull).mergeSort strLe = (ps.map renderFull).mergeSort strLe then ""
+      else " dmg-mismatch"
   s!"n {ps.length} w " ++ joinWith "," (ps.map fun p => toString p.weight) ++
-    (if errs = 0 then "" else s!" path-errors {errs}") ++
+    (if errs = 0 then "" else s!" path-errors {errs}") ++ dmgNote ++
     " | " ++ joinWith " | " lines
 
 def handle : List String → String
